@@ -321,11 +321,14 @@ def run_shard(ctx, name, mods):
                 owner.append((pos, idx, m.group(1) if m else None))
                 lines.append(ln)
         ok, out, err = ctx.coq_script("\n".join(lines) + "\n", name=name, timeout=1200)
+        if not ok and not re.search(r"line (\d+), characters", err) and err != "timeout":
+            # coqc died without a Coq error (killed under memory pressure): one retry
+            ok, out, err = ctx.coq_script("\n".join(lines) + "\n", name=name, timeout=1200)
         if ok:
             break
         m = re.search(r"line (\d+), characters", err)
         if not m or int(m.group(1)) > len(owner) or owner[int(m.group(1)) - 1] is None:
-            failed[(None, name)] = err[-1500:]
+            failed[(None, name)] = (err or out or "coqc failed without output")[-1500:]
             break
         pos, idx, lemma = owner[int(m.group(1)) - 1]
         failed[(idx, lemma or "definitions")] = err[-600:]
@@ -418,7 +421,7 @@ def run(ctx):
     for m in sorted(mods, key=lambda m: -len(m[2])):
         min(shards, key=lambda sh: sum(len(x[2]) for x in sh)).append(m)
     shards = [sh for sh in shards if sh]
-    with ThreadPoolExecutor(max_workers=min(ctx.jobs, int(os.environ.get("C19_COQ_JOBS", "8")))) as ex:
+    with ThreadPoolExecutor(max_workers=min(ctx.jobs, int(os.environ.get("C19_COQ_JOBS", "8" if tier == "quick" else "16")))) as ex:
         outs = list(ex.map(lambda kv: run_shard(ctx, "goals_%d" % kv[0], kv[1]), enumerate(shards)))
     failed = {}
     for o in outs:
@@ -473,7 +476,7 @@ def run(ctx):
     mono = sum(1 for d in ladder.values() if len(d) == 3 and d["1/10"] >= d["1/100"] >= d["1/1000"])
     full = sum(1 for d in ladder.values() if len(d) == 3)
 
-    distinct = {vlib.structural_hash(cases[i]) for i in evals}
+    distinct = {vlib.structural_hash(cases[i]) for i in evals if cases[i]["nA"] >= 2}
     sample = []
     if evals:
         i0 = sorted(evals)[0]
@@ -486,7 +489,7 @@ def run(ctx):
                 "{1e-3,1e-2,1e-1,1/2,1,2,10} as Python float / int / 1-element tensor / per-state tensor, prior None (uniform) or on the open simplex k/16 "
                 "((1,A) or (S,A)), force_nonzero_probabilities both ways; about 20% of cases in lambda ladders (uniform prior, 1e-1,1e-2,1e-3 on one MDP), about 15% through "
                 "EntropyRegularizedPolicyIteration.plan_on; one interval-proved goal per number (q, pi: states x actions; v, Z>0: states) of every "
-                "CONVERGED result; distinct = structural hash of the case; non-trivial = converged (all have >= 2 states)",
+                "CONVERGED result; distinct = structural hash of the case; non-trivial = converged with >= 2 actions (all have >= 2 states)",
         "samples": sample,
         "cases": len(cases), "goals": ngoals, "goals_proved": nproved, "cases_with_unproved_goal": len(bad_cases),
         "rate_checks": nrate, "rate_worst_distance_over_bound": worst,
